@@ -2059,7 +2059,8 @@ class Translator:
                 elif ch in '>)]': depth -= 1
                 elif ch == ',' and depth == 0: cnt += 1
             found.append(cnt)
-        return found[0] if len(found) == 1 else None
+        # (two partial specializations for same-named heads, e.g. std::tuple / utl::tuple, count the same argument list)
+        return found[0] if found and all(f == found[0] for f in found) else None
 
     def ex_SizeOfPackExpr(self, n, fctx):
         nm = n.get('name')
